@@ -234,6 +234,8 @@ impl RowIdSequence {
         });
         for matches in &mut segment_matches {
             matches.sort_unstable();
+            // A row id may be requested more than once
+            matches.dedup();
         }
 
         let mut offset = 0;
